@@ -38,6 +38,7 @@ type Rule struct {
 	Configs  []string // build configurations it runs on in the quick tier (default: "default")
 	Deep     []string // additional configurations in the thorough tier
 	DeepOnly bool     // only runs in the thorough tier
+	Exact    bool     // the rule's expectations are specific to its configurations: no extra ones in the thorough tier
 	Min      int      // vacuity floor: minimum number of obligations confirmed by hand
 	Run      func(rc *RC)
 }
@@ -237,6 +238,20 @@ func RunProperty(prop *Property, tier string, seed int, onlyRule string) *Result
 		}
 		if tier == "thorough" {
 			cfgs = append(append([]string{}, cfgs...), r.Deep...)
+		}
+		if tier == "thorough" && !r.Exact {
+			// the thorough tier evaluates every rule on every build configuration
+			for _, c := range []string{"default", "race", "386"} {
+				have := false
+				for _, x := range cfgs {
+					if x == c {
+						have = true
+					}
+				}
+				if !have {
+					cfgs = append(cfgs, c)
+				}
+			}
 		}
 		rep := RuleReport{ID: r.ID, Title: r.Title, Covers: r.Covers, MinExpected: r.Min, Configs: cfgs}
 		for _, c := range cfgs {
